@@ -417,6 +417,143 @@ def pixelSums : List Nat → List Int → Int → List Int
 /-- column totals of the kymograph image (`image.sum(axis=0)`): totals of blocks of `P` pixels -/
 def lineTotals (P : Nat) (pix : List Int) : List Int := (padRows P pix).map List.sum
 
+/-! ### derived kymographs (strengthening round H): one object, a sequence of operations
+
+  `Kymo.__getitem__` (time slicing), `crop_by_distance`, `flip`, `copy`/`calibrate_to_kbp`, and the
+  start repair `seek_timestamp_next_line` / `Kymo._fix_incorrect_start` of a kymograph whose photon
+  streams begin after the info wave.  The state mirrors what the code keeps: the info wave between
+  `start` and `stop`, the rows of the reconstructed timestamp image the timestamp factory hands out,
+  the rows of the reconstructed photon image the image factory hands out (`flip` reverses only the
+  latter), whether the factories are still the default ones, and where the line time comes from. -/
+
+/-- `np.argmax(mask)` over any list: index of the first element satisfying `p`, `0` when none does. -/
+def argmaxMask {α} (p : α → Bool) (l : List α) : Nat :=
+  let i := l.findIdx p
+  if i < l.length then i else 0
+
+/-- `seek_timestamp_next_line(infowave)`: the starts of the pixels after the first one, their
+    differences, the first difference above the midpoint of the shortest and the longest one; the
+    start of the pixel after it.  `none` = `ValueError` (`np.max` of an empty array: fewer than
+    three completed pixels). -/
+def Wave.seekNextLine (w : Wave) : Option Int :=
+  let sub := w.subset
+  let ts := w.usedTs
+  let ends := (List.range sub.length).filter fun i => sub.getD i 0 == 2
+  let pstart := ends.dropLast.map fun i => ts.getD (i + 1) 0
+  let dts := List.zipWith (fun a b => b - a) pstart (pstart.drop 1)
+  if dts = [] then none
+  else
+    let idx := argmaxMask (fun d => decide (listMax dts + listMin dts < 2 * d)) dts
+    pstart[idx + 1]?
+
+/-- rows `rows` (indices) of an image given by its rows -/
+def pickRows (rows : List Nat) (img : List (List Int)) : List (List Int) := rows.map fun r => img.getD r []
+
+/-- `_default_line_timestamp_ranges_factory` on the rows the timestamp factory hands out: exclusive
+    ranges, or (`incl`, at least two lines) `ts_min + (ts_min[1] − ts_min[0])`. -/
+def Wave.lineRangesRows (w : Wave) (P : Nat) (rows : List Nat) (δ : Int) (incl : Bool) :
+    Option (List (Int × Int)) :=
+  match w.pixReduce listMin, w.pixReduce listMax with
+  | some mn, some mx =>
+    let tsMin := (pickRows rows (kymoImage P mn)).headD []
+    let tsMax := (colMax (pickRows rows (kymoImage P mx)) (numBlocks mx.length P)).map (· + δ)
+    match incl, tsMin with
+    | true, a :: b :: _ => some (tsMin.map fun t => (t, t + (b - a)))
+    | _, _ => some (tsMin.zip tsMax)
+  | _, _ => none
+
+/-- a derived kymograph -/
+structure DK where
+  w : Wave                 -- the info wave between `Kymo.start` and `Kymo.stop`
+  stop : Int               -- `Kymo.stop`
+  cnt : List Int           -- the photon counts of the same samples
+  tsRows : List Nat        -- rows of the reconstructed timestamp image that `timestamps` shows
+  imgRows : List Nat       -- rows of the reconstructed photon image that `get_image` shows
+  dflt : Bool              -- `_has_default_factories()`
+  ltTs : Bool              -- the line time is read from the timestamps of the flipped source
+
+inductive Step where
+  | slice (a b : Option Int)
+  | crop (lo hi : Nat)
+  | flip
+  | copy
+
+/-- `file.infowave[a:b]` and the photon counts of the same window (the C01 slicing model) -/
+def DK.cut (d : DK) (a b : Int) : DK :=
+  let ci := (⟨d.w.start, d.w.dt, d.w.iw.map Int.ofNat⟩ : C01.Cont).slice a b
+  let cc := (⟨d.w.start, d.w.dt, d.cnt⟩ : C01.Cont).slice a b
+  { d with w := ⟨ci.start, d.w.dt, ci.data.map Int.toNat⟩, cnt := cc.data, stop := b }
+
+/-- a kymograph as constructed; `pcut > 0`: the photon streams start `pcut` samples after the info
+    wave, the first access repairs the start (`_fix_incorrect_start`).  `"unsettled"`: the repaired
+    start still lies before the photon streams (outside the generated scope). -/
+def DK.init (w : Wave) (cnt : List Int) (P pcut : Nat) : Except String DK :=
+  let d0 : DK := ⟨w, w.start + w.iw.length * w.dt, cnt, List.range P, List.range P, true, false⟩
+  if pcut = 0 then .ok d0
+  else
+    match w.seekNextLine with
+    | none => .error "ValueError"
+    | some t => if t < w.start + pcut * w.dt then .error "unsettled" else .ok (d0.cut t d0.stop)
+
+def DK.step (d : DK) (P : Nat) (δ : Int) : Step → Except String DK
+  | .copy => .ok d
+  | .flip => .ok { d with imgRows := d.imgRows.reverse, ltTs := if d.dflt then true else d.ltTs, dflt := false }
+  | .crop lo hi =>
+    let ts := (d.tsRows.take hi).drop lo
+    if ts = [] then .error "IndexError"
+    else .ok { d with tsRows := ts, imgRows := (d.imgRows.take hi).drop lo, dflt := false }
+  | .slice a b =>
+    if !d.dflt then .error "NotImplementedError"
+    else
+      let start := a.getD d.w.start
+      let stop := b.getD d.stop
+      match d.w.lineRangesRows P d.tsRows δ false with
+      | none => .error "ValueError"
+      | some rs =>
+        let starts := rs.map (·.1)
+        let imin := searchsortedLeft starts start
+        let imax := searchsortedLeft starts stop
+        if starts = [] then .error "IndexError"
+        else if imin = starts.length ∨ imin ≥ imax then .error "Empty"
+        else
+          let stop' := if imax < starts.length then starts.getD imax 0
+            else max (min stop d.stop) ((rs.getLast?.map (·.2)).getD 0)
+          .ok (d.cut (starts.getD imin 0) stop')
+
+def DK.run (d : DK) (P : Nat) (δ : Int) : List Step → Except String DK
+  | [] => .ok d
+  | s :: ss => match d.step P δ s with
+    | .ok d' => d'.run P δ ss
+    | .error e => .error e
+
+/-- `Kymo.timestamps` of the derived object -/
+def DK.timestamps (d : DK) (P : Nat) : Option (List (List Int)) :=
+  (d.w.kymoTimestamps P).map (pickRows d.tsRows)
+
+/-- `pixel_time_seconds` in ns: from the info wave, or `timestamps[1, 0] − timestamps[0, 0]`.
+    Outer `none` = `RuntimeError`/`ValueError`, inner `none` = `IndexError`. -/
+def DK.pixelTimeNs (d : DK) (P : Nat) : Option (Option Int) :=
+  if d.dflt then d.w.pixelTimeNs.map some
+  else (d.timestamps P).map fun ts =>
+    match ts with
+    | (a :: _) :: (b :: _) :: _ => some (b - a)
+    | _ => none
+
+/-- `line_time_seconds` in ns: `_default_line_time_factory` on the source the factory refers to. -/
+def DK.lineTimeNs (d : DK) (P : Nat) : Option (Option Int) :=
+  if !d.ltTs then (d.w.lineTimeNs P).map some
+  else (d.w.kymoTimestamps P).map fun ts =>
+    match ts with
+    | (a :: b :: _) :: _ => some (b - a)
+    | (a :: _) :: (b :: _) :: _ => some (P * (b - a))
+    | _ => none
+
+/-- column totals of the image the derived object shows -/
+def DK.totals (d : DK) (P : Nat) : List Int :=
+  let pix := pixelSums d.w.iw d.cnt 0
+  let img := pickRows d.imgRows (kymoImage P pix)
+  (List.range (numBlocks pix.length P)).map fun c => (img.map fun row => row.getD c 0).sum
+
 /-! ### protocol -/
 open Verif.Proto
 
@@ -477,6 +614,45 @@ def mkWave? (st dt iw : String) : Option Wave := do
   else if iw.any (· > 2) then none
   else some ⟨st, dt, iw⟩
 
+def step? (s : String) : Option Step :=
+  match s.splitOn ":" with
+  | ["s", a, b] => do let a ← optInt? a; let b ← optInt? b; some (.slice a b)
+  | ["c", lo, hi] => do let lo ← nat? lo; let hi ← nat? hi; some (.crop lo hi)
+  | ["f"] => some .flip
+  | ["y"] => some .copy
+  | ["k"] => some .copy
+  | _ => none
+
+/-- `-` = no step, else steps separated by `,`: `s:a:b` (time slice, `N` = open), `c:lo:hi` (crop to
+    pixel rows), `f` (flip), `y` (copy), `k` (calibrate_to_kbp: a copy as far as timing goes) -/
+def steps? (s : String) : Option (List Step) :=
+  if s == "-" then some [] else (s.splitOn ",").mapM step?
+
+def showTime2 : Option (Option Int) → String
+  | some (some ns) => showInt ns ++ " " ++ showFrac (secondsOf ns.toNat)
+  | some none => "IndexError"
+  | none => "RuntimeError"
+
+/-- the observables of a derived kymograph: `ts` timestamps, `rex`/`rin` line ranges, `lt`/`pt` line
+    and pixel time, `sum` channel reduced over the ranges + image column totals, `st` start, stop and the image shape -/
+def dkAnswer (d : DK) (p : Nat) (δ : Int) (what : String) (c : C01.Cont) : Option String :=
+  match what with
+  | "ts" => some (showErr (showListList showInt) "ValueError" (d.timestamps p))
+  | "rex" => some (showErr showRanges "ValueError" (d.w.lineRangesRows p d.tsRows δ false))
+  | "rin" => some (showErr showRanges "ValueError" (d.w.lineRangesRows p d.tsRows δ true))
+  | "lt" => some (showTime2 (d.lineTimeNs p))
+  | "pt" => some (showTime2 (d.pixelTimeNs p))
+  | "st" => some (toString d.w.start ++ " " ++ toString d.stop ++ " " ++ toString d.imgRows.length ++ " " ++
+      toString (numBlocks d.w.numBoundaries p))
+  | "sum" =>
+    match d.w.lineRangesRows p d.tsRows δ false with
+    | none => some "ValueError"
+    | some rs =>
+      match downsampledOver c rs with
+      | .error e => some e
+      | .ok sums => some (showIntList sums ++ " " ++ showIntList (d.totals p))
+  | _ => none
+
 /-- ops (a wave is `start dt [codes]`):
   `c03.mean [a…]`                 `timestamp_mean`, then `T/F` = every intermediate fits int64, then #splits
   `c03.meanrows w [r;r;…]`        `timestamp_mean(axis=1)`, then `T/F` = every intermediate fits int64, then #splits
@@ -490,7 +666,9 @@ def mkWave? (st dt iw : String) : Option Wave := do
   `c03.ksum  <wave> P [counts] cstart [cdata]`  `channel.downsampled_over(line ranges, np.sum)` then the image column totals
   `c03.sts   <wave> P L flip`     `Scan.timestamps` (frames separated by `|`)
   `c03.srng  <wave> P L incl`     `frame_timestamp_ranges`: pinned answer, then the repaired one
-  `c03.ssum  <wave> P L [counts] cstart [cdata]` the same over the (repaired) frame ranges, frame totals -/
+  `c03.ssum  <wave> P L [counts] cstart [cdata]` the same over the (repaired) frame ranges, frame totals
+  `c03.seek  <wave>`              `seek_timestamp_next_line`
+  `c03.dk what <wave> P pcut steps [counts] cstart [cdata]`  observable `what` of the kymograph after the steps -/
 def handle : List String → Option String
   | ["c03.mean", a] => do
     let a ← intList? a
@@ -566,6 +744,18 @@ def handle : List String → Option String
       | some (some rs) => some (guardEmpty w (sumAnswer w ⟨cst, w.dt, cdata⟩ rs (l * p) data))
       | some none => some "IndexError"
       | none => some (guardEmpty w "ValueError")
+  | ["c03.seek", st, dt, iw] => do
+    let w ← mkWave? st dt iw
+    some (showErr showInt "ValueError" w.seekNextLine)
+  | ["c03.dk", what, st, dt, iw, p, pcut, steps, data, cst, cdata] => do
+    let w ← mkWave? st dt iw; let p ← nat? p; let pcut ← nat? pcut; let steps ← steps? steps
+    let data ← intList? data; let cst ← int? cst; let cdata ← intList? cdata
+    if p = 0 ∨ data.length ≠ w.iw.length ∨ w.iw = [] then none
+    else
+      let δ := deltaTs w.dt
+      match (DK.init w data p pcut).bind (·.run p δ steps) with
+      | .error e => some e
+      | .ok d => dkAnswer d p δ what ⟨cst, w.dt, cdata⟩
   | _ => none
 
 end Verif.C03
